@@ -10,7 +10,7 @@ import (
 func exprStr(fset *token.FileSet, e ast.Expr) string {
 	var b strings.Builder
 	printer.Fprint(&b, fset, e)
-	return b.String()
+	return strings.Join(strings.Fields(b.String()), " ")
 }
 
 // callArgs lists, in source order, the single argument of every call `recv.name(arg)` in a function.
